@@ -15,7 +15,16 @@ class _Alarm(BaseException):
     pass
 
 
+_SLOW = [0]      # cases of this process that did not come to an end (watchdog, or a failure after > 15 s)
+
+
 def guarded_run(fn, *args, backend, backend_options=None, seconds=60):
+    import time
+    if _SLOW[0] >= 2:
+        # enough: do not spend the whole time budget of the check waiting for cases that no longer end
+        raise HarnessHang("not run: two earlier cases of this batch did not come to an end")
+    t0 = time.time()
+
     def on_alarm(signum, frame):
         raise _Alarm()
 
@@ -32,7 +41,10 @@ def guarded_run(fn, *args, backend, backend_options=None, seconds=60):
         return anyio.run(fn, *args, backend=backend, backend_options=backend_options or {})
     except BaseException as e:  # noqa
         if has_alarm(e):
+            _SLOW[0] += 1
             raise HarnessHang(f"the case did not end within {seconds} s of real time") from None
+        if time.time() - t0 > 15:
+            _SLOW[0] += 1
         raise
     finally:
         signal.setitimer(signal.ITIMER_REAL, 0)
